@@ -620,6 +620,13 @@ def exact_round(ctx: Ctx, batch: Batch, fmt: str, value: bytes, order_kind: str,
             batch.add(f"chal {key_ints(pk)} {bp.a.a} {bp.a.b} {bp.b.a} {bp.b.b} {bp.complement.a} {bp.complement.b} "
                       f"[{rec_c.draws[k]}]", f"0 {ca} {cb} 0 1 0 0", tag="create_challenge")
             batch.add(f"resp {p} {sk.g.a} {sk.g.b} {sk.t1} {ca} {cb}", str(r), tag="create_challenge_response")
+    # the same prover/attestation/algorithm objects asked again later: answers may not depend on what was asked before
+    for k in rng.sample(range(len(challenges)), min(3, len(challenges))):
+        again = alg.create_challenge_response(sk, att, challenges[k])
+        ctx.count("history:exact:re-asked")
+        if len(again) != 1 or again[0] != sums[k]:
+            fail("create_challenge_response:pair-sum", f"challenge {k} asked again after {len(order)} other answers is "
+                                                       f"answered {again!r}, the pair encrypts {sums[k]}", challenge=k)
     got = [agg.get(k, 0) for k in range(4)]
     want = [sum(1 for k in order if sums[k] == m) for m in range(4)]
     if got != want or set(agg.keys()) != {0, 1, 2, 3}:
@@ -1044,8 +1051,8 @@ def range_round(ctx: Ctx, batch: Batch, sk=None, scenario=None):
                      ("wider-right", a, b + 1 + rng.randrange(5)), ("wider-left", a - 1 - rng.randrange(5), b)]
             offs = {1, -1, 2, -2, 3, -3, width, -width, width + 1, -(width + 1), width + 2, 2 * width + 3,
                     rng.randrange(4, 100), -rng.randrange(4, 100)} - {0}
-            if len(offs) > 9:
-                offs = set(rng.sample(sorted(offs), 9)) | {width + 1, -(width + 1)}
+            if len(offs) > 5:
+                offs = set(rng.sample(sorted(offs), 4)) | {rng.choice([width + 1, -(width + 1)])}
             cands += [(f"same-width{k:+d}", a + k, b + k) for k in sorted(offs)]
             cands = [c for c in cands if not (c[1] < 0 or c[2] < 1 or c[1] > c[2] or (c[1], c[2]) == (a, b))]
             own = ("own", a, b)
@@ -1509,7 +1516,7 @@ def protocol_cases(ctx: Ctx, scale: float):
     scen = ["inside", "outside-cheater", "wrong-range", "inside-edge", "outside-cheater", "outside-honest",
             "outside-cheater", "wrong-range", "outside-by-one", "outside-cheater", "tampered", "outside-cheater",
             "wrong-range", "inside", "outside-cheater", "wrong-range", "outside-cheater", "tampered", "outside-cheater",
-            "wrong-range", "inside-edge", "outside-honest", "inside", "tampered", "outside-by-one", "tampered"]
+            "inside", "inside-edge", "outside-honest", "inside", "tampered", "outside-by-one", "tampered"]
     n_range = max(4, int(26 * scale))
     sk = None
     for i in range(n_range):
